@@ -141,6 +141,27 @@ void h_buzhash_same_byte_from_reset(void) {
     V_COVER(in.byte == 0); V_COVER(in.byte == -1); V_COVER(in.byte == 'a');
 }
 
+
+/* The same lemma with the byte CONCRETE: all 256 values in turn, each run from the reset state (constant
+ * propagation does the arithmetic; no search).  Deciding unit for C01.buzhash_lemma.window_full_of_one_byte_never_matches
+ * in the quick tier; the symbolic-byte version above stays in the thorough tier. */
+void h_buzhash_same_byte_all256(void) {
+    for(int v = 0; v < 256; v++) {
+        buzHash b = {0};
+        char c = (char)v; uint32_t out = 0; bool r = true;
+        for(int k = 0; k < SPEC_W; k++)
+            r = r && buzhash_update(&b, &c, SPEC_W, &out);
+        V_ASSUME(r);
+        V_ASSERT(b.window_fill == SPEC_W && out == b.h, "C01.buzhash_lemma.window_full_after_48_updates");
+        V_ASSERT((out & SPEC_BZ_MASK) != 0, "C01.buzhash_lemma.window_full_of_one_byte_never_matches");
+        uint32_t h48 = out;
+        r = buzhash_update(&b, &c, SPEC_W, &out);
+        V_ASSERT(r && out == h48, "C01.buzhash_lemma.further_updates_with_the_same_byte_keep_the_hash");
+        buzhash_reset(&b);
+        if(v == 255) V_COVER(r);
+    }
+}
+
 #ifdef VERIF_NATIVE
 #include "replay_in.h"
 #endif
